@@ -317,6 +317,13 @@ RECURSIVE BlocksFold(_, _, _, _, _)
 BlocksFold(S, bs, i, env, opt) == IF i > Len(bs) THEN S ELSE BlocksFold(Step(S, bs[i], env, opt), bs, i + 1, env, opt)
 RunBlocks(bs, env, opt) == BlocksFold(S0, bs, 1, env, opt)
 
+\* SN is the subtitle number: the subtitles of a file (terminal blocks that are not skipped) carry different numbers.
+\* What a reader makes of a repeated number is outside the property (the trace specification only requires that it does
+\* not depend on the magnitude of the numbers).
+SnWellFormed(bs) ==
+  LET t == SelectSeq(bs, LAMBDA x : Kind(x, AllOn) = "terminal")
+  IN  \A j, k \in 1..Len(t) : j # k => t[j].sn # t[k].sn
+
 \* mapping of the presentation fields
 Align(jc) == CASE jc = 1 -> {"start"} [] jc = 2 -> {"center"} [] jc = 3 -> {"end"}
                [] OTHER -> {"start", "center", "end"}       \* 0 = unchanged presentation: no alignment is prescribed
@@ -374,13 +381,15 @@ Init == /\ IdleTti
 \* Next is a disjunction of named actions (one per block class / byte class) so that TLC reports coverage per action.
 \* In the pen machine a diacritic is followed by a base letter (ISO 6937: the pair is one coded character).
 TtiOn == MODE = "tti" /\ Len(hist) < MAXBLOCKS
+\* well-formed input: SN numbers the subtitles, so the terminal blocks of different subtitles differ in SN (SnWellFormed)
+FreshSn(b) == SnWellFormed(Append(hist, b))
 TfOn(b) == MODE = "tf" /\ Len(done) < MAXTF /\ (pen.dia # 0 /\ ~pen.stop => b \in 65..122)
 NUserData == TtiOn /\ \E b \in BLOCKS : UserData(b)
 NReserved == TtiOn /\ \E b \in BLOCKS : Reserved(b)
 NComment == TtiOn /\ \E b \in BLOCKS : Comment(b)
 NExtension == TtiOn /\ \E b \in BLOCKS : Extension(b)
-NDropEarly == TtiOn /\ \E b \in BLOCKS : DropEarly(b)
-NEmit == TtiOn /\ \E b \in BLOCKS : Emit(b)
+NDropEarly == TtiOn /\ \E b \in BLOCKS : FreshSn(b) /\ DropEarly(b)
+NEmit == TtiOn /\ \E b \in BLOCKS : FreshSn(b) /\ Emit(b)
 NTfCharacter == MODE = "tf" /\ \E b \in TFBYTES : TfOn(b) /\ TfCharacter(b)
 NTfDiacritic == MODE = "tf" /\ \E b \in TFBYTES : TfOn(b) /\ TfDiacritic(b)
 NTfSpace == MODE = "tf" /\ \E b \in TFBYTES : TfOn(b) /\ TfSpace(b)
@@ -429,6 +438,7 @@ Spec == Init /\ [][Next]_vars
 BufOnlyInExtension   == ~inExt => buf = <<>> /\ nblk = 0
 BeginLeEnd           == \A k \in 1..Len(subs) : 0 <= subs[k].b /\ subs[k].b <= subs[k].e   \* given TCI <= TCO in BLOCKS
 TtiFoldAgrees        == RunBlocks(hist, ENV, AllOn) = SNow
+InputWellFormed      == SnWellFormed(hist)
 EveryTerminalCounted == Len(subs) <= Cardinality({k \in 1..Len(hist) : Kind(hist[k], AllOn) = "terminal"})
 SetsPartition ==
   /\ \A k \in 1..Len(subs) : (subs[k].cs = 0) = (subs[k].set = 0)
@@ -438,7 +448,10 @@ SetsPartition ==
   /\ \A q \in 1..Len(sets) : \A j \in 1..Len(sets[q]) :
         /\ subs[sets[q][j]].set = q
         /\ j > 1 => sets[q][j] = sets[q][j - 1] + 1 /\ subs[sets[q][j]].cs \in {2, 3}   \* members are consecutive subtitles
+        /\ j < Len(sets[q]) => subs[sets[q][j]].cs \in {1, 2}                          \* nothing follows the last member
   /\ open => sets # <<>>
+\* a set is open exactly while the last emitted subtitle is a first or intermediate member
+OpenIffSetContinues == open = (subs # <<>> /\ subs[Len(subs)].cs \in {1, 2})
 IsPrefix(a, c) == Len(a) <= Len(c) /\ SubSeq(c, 1, Len(a)) = a
 EmitOnlyOnTerminal == [][subs' # subs => last' = "emit" /\ ~inExt' /\ Len(subs') = Len(subs) + 1 /\ IsPrefix(subs, subs')]_vars
 NeverEmitWhileAccumulating == [][last' = "ext" => subs' = subs /\ sets' = sets /\ inExt' /\ IsPrefix(buf, buf')]_vars
